@@ -92,6 +92,7 @@ type Obs struct {
 	StCalls     map[string]int
 	OpenLeak    int
 	Panic       string // non-empty if the engine panicked (value + site)
+	Hang        bool   // the scan never returned (Panic describes it)
 	PanicStack  string
 	StepCap     bool
 	SimTime     time.Duration
@@ -148,8 +149,20 @@ func Execute(t *testing.T, cfg *Config) *Obs {
 		})
 		return obs
 	}
-	return execute(cfg)
+	// A scan of these small in-memory trees takes microseconds; one that has not returned after a
+	// minute of wall-clock time is blocked for good (e.g. on a lock that was never released).  The
+	// blocked goroutine is abandoned; nothing it holds is shared with later executions.
+	done := make(chan *Obs, 1)
+	go func() { done <- execute(cfg) }()
+	select {
+	case obs := <-done:
+		return obs
+	case <-time.After(hangTimeout):
+		return &Obs{Panic: fmt.Sprintf("hang: the scan did not return within %v of wall-clock time (blocked for good; outside a bubble no simulated clock can detect the deadlock)", hangTimeout), Hang: true}
+	}
 }
+
+var hangTimeout = 60 * time.Second
 
 func execute(cfg *Config) (obs *Obs) {
 	nodes := 0
